@@ -82,6 +82,8 @@ type RetJ struct {
 	Nested []string `json:"nested"`
 	ErrHas bool     `json:"errhas"`
 	ErrInt int      `json:"errinternal"`
+	// ErrTimeout: Err() is (wraps) ErrHandlerTimeout
+	ErrTimeout bool `json:"errtimeout"`
 	Err    string   `json:"err,omitempty"`
 	Views  *Views   `json:"views,omitempty"`
 }
@@ -123,6 +125,8 @@ type Opts struct {
 	Views bool
 	// HandlerTimeout for the machine (0 = default 100ms... we raise it)
 	HandlerTimeout time.Duration
+	// HandlerDeadline for the machine (0 = the library's default, 10 s)
+	HandlerDeadline time.Duration
 }
 
 func NewMachine(c *gen.Case, r *rec.Recorder, o Opts) (*am.Machine, *InitJ, error) {
@@ -137,8 +141,16 @@ func NewMachine(c *gen.Case, r *rec.Recorder, o Opts) (*am.Machine, *InitJ, erro
 		HandlerTimeout: ht,
 		QueueLimit:     QueueLimit,
 		// the backoff is switched on and off by the driver ("env" events)
-		HandlerBackoff: time.Hour,
+		HandlerBackoff:  time.Hour,
+		HandlerDeadline: o.HandlerDeadline,
 	})
+	// Opts.HandlerDeadline / Opts.HandlerBackoff never reach the machine
+	// (cloneOptions in mach_utils.go copies neither): the public fields are set
+	// directly, before anything runs
+	m.HandlerBackoff = time.Hour
+	if o.HandlerDeadline != 0 {
+		m.HandlerDeadline = o.HandlerDeadline
+	}
 	r.Mach = m
 	if err := m.VerifyStates(index); err != nil {
 		return nil, nil, err
@@ -173,7 +185,10 @@ func NewMachine(c *gen.Case, r *rec.Recorder, o Opts) (*am.Machine, *InitJ, erro
 
 func scriptOf(call *gen.Call) *rec.Script {
 	sc := &rec.Script{Veto: map[string]bool{}, Panic: map[string]any{},
-		Nest: map[string][]rec.NestedMut{}, Stall: map[string]chan struct{}{}}
+		Nest: map[string][]rec.NestedMut{}, Stall: map[string]chan struct{}{}, Dead: map[string]bool{}}
+	for _, p := range call.Dead {
+		sc.Dead[rec.SKey(p[0].(int), p[1].(rec.HName))] = true
+	}
 	for _, v := range call.Veto {
 		sc.Veto[rec.SKey(v[0].(int), v[1].(rec.HName))] = true
 	}
@@ -191,7 +206,9 @@ func scriptOf(call *gen.Call) *rec.Script {
 	for _, p := range call.Stall {
 		ch := make(chan struct{})
 		sc.Stall[rec.SKey(p[0].(int), p[1].(rec.HName))] = ch
-		sc.AllStalls = append(sc.AllStalls, ch)
+		if !sc.Dead[rec.SKey(p[0].(int), p[1].(rec.HName))] {
+			sc.AllStalls = append(sc.AllStalls, ch)
+		}
 	}
 	return sc
 }
@@ -241,6 +258,28 @@ func DoCall(m *am.Machine, call *gen.Call) (res string, pan string) {
 	}
 }
 
+func retOf(m *am.Machine, r *rec.Recorder, res, pan string, errInt int, o Opts, index am.S) *RetJ {
+	ret := &RetJ{Ev: "ret", Res: res, Panic: pan,
+		Active: nz(m.ActiveStates(nil)),
+		Time:   append([]uint64{}, m.Time(nil)...),
+		Qtick:  m.QueueTick(), Qlen: int(m.QueueLen()), IsErr: m.IsErr(),
+		Nested: append([]string{}, r.NestedRes...),
+		ErrInt: errInt}
+	if e := m.Err(); e != nil {
+		ret.Err = e.Error()
+		ret.ErrTimeout = errors.Is(e, am.ErrHandlerTimeout)
+		for _, fp := range r.FiredPanics {
+			if strings.Contains(e.Error(), strings.TrimPrefix(fp, "err:")) {
+				ret.ErrHas = true
+			}
+		}
+	}
+	if o.Views {
+		ret.Views = SampleViews(m, index)
+	}
+	return ret
+}
+
 // Run executes the case and returns the recorded lines (init, call, tx.., ret, ...).
 func Run(c *gen.Case, o Opts) ([]any, error) {
 	r := rec.NewRecorder()
@@ -249,6 +288,7 @@ func Run(c *gen.Case, o Opts) ([]any, error) {
 		return nil, err
 	}
 	defer m.Dispose()
+	defer r.ReleaseDead()
 	index := gen.Index(c)
 	// ErrInternal reader: counts errors and releases stalled handlers once the
 	// timeout has been reported
@@ -274,6 +314,46 @@ func Run(c *gen.Case, o Opts) ([]any, error) {
 			lines = append(lines, call)
 			continue
 		}
+		if call.Ev == "release" {
+			// the handler that outlived HandlerDeadline returns now: its superseded
+			// handler loop reports that with AddErr from its own goroutine
+			// (machine.go handleCall, "deadlined handler finished").  Logged as the
+			// call it is: add [Exception], result read off its transition.
+			pc := &gen.Call{Ev: "call", Type: "add", Called: am.S{am.StateException},
+				Via: "late-handler", Veto: [][]any{}, Nest: []gen.NestAt{}}
+			r.SetScript(scriptOf(pc))
+			if r.ReleaseDead() == 0 {
+				continue
+			}
+			quiet, last := 0, -1
+			for t := 0; t < 600 && quiet < 10; t++ {
+				time.Sleep(5 * time.Millisecond)
+				n := r.NLines()
+				if n > 0 && n == last && m.QueueLen() == 0 && m.Transition() == nil {
+					quiet++
+				} else {
+					quiet = 0
+				}
+				last = n
+			}
+			got := r.Take()
+			if len(got) == 0 {
+				continue // nothing was reported: not a sentence of the property
+			}
+			res := "canceled"
+			for _, g := range got {
+				if tx, ok := g.(*rec.TxJ); ok {
+					if tx.Accepted {
+						res = "executed"
+					}
+					break
+				}
+			}
+			lines = append(lines, pc)
+			lines = append(lines, got...)
+			lines = append(lines, retOf(m, r, res, "", 0, o, index))
+			continue
+		}
 		r.SetScript(scriptOf(call))
 		if call.Follows {
 			call.Predicted = lastRes
@@ -284,24 +364,7 @@ func Run(c *gen.Case, o Opts) ([]any, error) {
 		lastRes = res
 		r.ReleaseStalls()
 		lines = append(lines, r.Take()...)
-		ret := &RetJ{Ev: "ret", Res: res, Panic: pan,
-			Active: nz(m.ActiveStates(nil)),
-			Time:   append([]uint64{}, m.Time(nil)...),
-			Qtick:  m.QueueTick(), Qlen: int(m.QueueLen()), IsErr: m.IsErr(),
-			Nested: append([]string{}, r.NestedRes...),
-			ErrInt: int(errInt.Load() - errBefore)}
-		if e := m.Err(); e != nil {
-			ret.Err = e.Error()
-			for _, fp := range r.FiredPanics {
-				if strings.Contains(e.Error(), strings.TrimPrefix(fp, "err:")) {
-					ret.ErrHas = true
-				}
-			}
-		}
-		if o.Views {
-			ret.Views = SampleViews(m, index)
-		}
-		lines = append(lines, ret)
+		lines = append(lines, retOf(m, r, res, pan, int(errInt.Load()-errBefore), o, index))
 		if pan != "" || res == "hang" {
 			break
 		}
